@@ -88,7 +88,8 @@ var (
 	IsHomestead = true
 	evmConfig   = vm.Config{EVMGasLimit: EVMGasLimit}
 
-	errQuitExecute = fmt.Errorf("quit executing block")
+	errQuitExecute      = fmt.Errorf("quit executing block")
+	errEmptyTransaction = fmt.Errorf("empty transaction")
 )
 
 type EVMApp struct {
